@@ -373,3 +373,197 @@ Example c01_burst_ex :
                          (burst_ops [(1%N, 7%N, false); (2%N, 8%N, true); (1%N, 9%N, false)])))
   = [[1; 1; 1; 1]; [2; 2; 2]; [3; 3; 3; 3]].
 Proof. vm_compute. reflexivity. Qed.
+
+(* ================================================================== *)
+(* OPTIONS of a description query (get.desc.ims / sub.get.desc.ims): model Sys/TopicImsC01.v, a
+   wrapper over the group-topic model with replyGetDesc's If-Modified-Since option as the
+   three-valued [ims] (absent / before the topic's last metadata update / not before it), the
+   malformed-options branch, {sub get=desc} and {set desc public} (which moves t.updated).
+   "The number acknowledged to the publisher is the number every later description query shows" -
+   for EVERY value of the option. *)
+From Tinode Require Import Sys.TopicImsC01 Sys.TopicImsC01Proofs.
+
+Section C01Ims.
+Variable dr : Z -> list (Z * Z) -> option (list (Z * Z)).
+Variable nr : list (Z * Z) -> list (Z * Z).
+Variable sm : sessmap.
+
+(* a subscriber with R is shown seq = lastID, his marks and the deletion mark - for every option value *)
+Theorem c01_desc_options_show_lastid : forall c cpub sid u i p,
+  alookup u (c_users c) = Some p -> is_reader (pud_mode p) = true ->
+  get_desc_ims c cpub sid u i false =
+  [(sid, FDesc (p_want p) (p_given p) (c_lastid c) (p_read p) (Z.max (p_recv p) (p_read p))
+               (Z.max (p_delid p) (c_delid c)) true (ims_absent_c01i i) (if if_updated_c01i i then cpub else 0%N))].
+Proof. exact get_desc_ims_reader. Qed.
+
+(* the numbers of the answer (seq, read, recv, del - or none for a non-reader / stranger) are those of
+   the option-less answer of the base model, for every option value *)
+Theorem c01_desc_numbers_independent_of_options : forall s c n cpub sid u i,
+  nums_c01i (get_desc_ims c cpub sid u i false) = nums_c01i (lift_c01i (h_out (get_desc s c n sid u))).
+Proof. exact get_desc_ims_nums. Qed.
+
+(* the number acknowledged by an accepted publish is the number a description query with ANY option
+   shows to any reader afterwards *)
+Theorem c01_desc_options_show_acknowledged : forall f s c n sid u content noecho sid' n',
+  acked (h_out (publish f s c n sid u content noecho)) sid' n' ->
+  forall cpub sid2 u2 i p,
+    alookup u2 (c_users (h_ca (publish f s c n sid u content noecho))) = Some p -> is_reader (pud_mode p) = true ->
+    exists w g rd rc dl cr pb,
+      get_desc_ims (h_ca (publish f s c n sid u content noecho)) cpub sid2 u2 i false = [(sid2, FDesc w g n' rd rc dl true cr pb)].
+Proof. exact publish_then_desc_ims. Qed.
+
+(* one request of the wrapper from ANY state ({get desc} with options, {sub get=desc}, {set desc public},
+   any request of the base model; any fault): every description answer that shows numbers shows the
+   lastID of the cache the request leaves *)
+Theorem c01_desc_options_current : forall f x o sid w g seq rd rc dl cr pb,
+  In (sid, FDesc w g seq rd rc dl true cr pb) (snd (istep dr nr sm f x o)) ->
+  exists c, ca (ibase (fst (istep dr nr sm f x o))) = Some c /\ seq = c_lastid c.
+Proof. exact (istep_fdesc_current dr nr sm). Qed.
+
+(* ... and the wrapper moves the store rows and the cache exactly as the base model moves them on the
+   history with the options erased ({set desc public} = a request without effect on them): every theorem
+   above about histories of the base model (c01_invariant, c01_only_publish_numbers,
+   c01_restart_above_shown, c01_mark_monotone) holds along every history of the wrapper. *)
+Theorem c01_desc_options_simulation : forall h x,
+  let r := fst (irun dr nr sm x h) in
+  let b := fst (run dr nr sm (ibase x) (base_hist_c01i h)) in
+  st (ibase r) = st b /\ ca (ibase r) = ca b.
+Proof. intros h x. exact (irun_base dr nr sm h x (ibase x) (beq_refl _)). Qed.
+
+Theorem c01_desc_options_invariant : forall s h pub, fresh s ->
+  inv_num (ibase (fst (irun dr nr sm (mkIS (mkState s None 0) pub 0 0) h))).
+Proof.
+  intros s h pub F.
+  destruct (irun_base dr nr sm h (mkIS (mkState s None 0) pub 0 0) (mkState s None 0) (beq_refl _)) as [E1 E2].
+  pose proof (run_inv_num dr nr sm (base_hist_c01i h) (mkState s None 0) (fresh_inv s 0 F)) as I.
+  destruct (fst (irun dr nr sm (mkIS (mkState s None 0) pub 0 0) h)) as [[s1 c1 n1] p1 p2 k].
+  destruct (fst (run dr nr sm (mkState s None 0) (base_hist_c01i h))) as [s2 c2 n2].
+  cbn [ibase st ca] in *. subst s2 c2. exact (inv_num_ncalls _ _ _ _ I).
+Qed.
+End C01Ims.
+
+Print Assumptions c01_desc_options_show_lastid.
+Print Assumptions c01_desc_numbers_independent_of_options.
+Print Assumptions c01_desc_options_show_acknowledged.
+Print Assumptions c01_desc_options_current.
+Print Assumptions c01_desc_options_simulation.
+Print Assumptions c01_desc_options_invariant.
+
+(* non-vacuity: two publishes, {set desc public} in between (t.updated moves); the reader's description
+   shows seq = 2 with the option absent, before and not before the last update; malformed options -> no numbers *)
+Example c01_desc_options_ex :
+  nth 5 w_descs_c01i [] = [(2%N, Some (2, 2, 2, 0))] /\
+  nth 6 w_descs_c01i [] = [(2%N, Some (2, 2, 2, 0))] /\
+  nth 7 w_descs_c01i [] = [(2%N, Some (2, 2, 2, 0))].
+Proof. destruct w_descs_c01i_ok as (_ & A & B & C & _). auto. Qed.
+
+(* ================================================================== *)
+(* CHANNEL READERS.  The group-topic model above has no channel subscriptions; the clause "the number
+   acknowledged to the publisher is the number EVERY recipient shows" is stated for them on the fan-out
+   model Sys/Fanout.v (group / channel-enabled group / p2p; sessions attached under the grpXXX or the
+   chnXXX name), the model of the C02 check, from EVERY state. *)
+From Tinode Require Sys.Fanout Sys.FanoutProofs.
+
+(* every delivered copy of an accepted publish - to a subscriber's session or to a channel
+   subscription - carries the acknowledged number q = lastID + 1, which becomes lastID *)
+Theorem c01_every_recipient_shows_acknowledged : forall st px q a c p st',
+  Fanout.publish st px = (Fanout.PAccepted q a c p, st') ->
+  q = (Fanout.st_lastid st + 1)%Z /\ Fanout.st_lastid st' = q /\
+  forall s f, In (s, f) (Fanout.fanout st px) -> Fanout.f_seq f = q.
+Proof.
+  intros st px q a c p st' H.
+  destruct (FanoutProofs.overflow_detached st px q a c p st' H) as (Q & _ & _ & L & _).
+  split; [exact Q|]. split; [exact L|].
+  intros s f Hin. destruct (FanoutProofs.copy_payload st px s f Hin) as [E _]. rewrite E, Q. reflexivity.
+Qed.
+
+(* a copy is made for every attached channel subscription (whatever the permissions of the user it acts
+   for), except for the publishing session when no echo was asked *)
+Theorem c01_channel_subscriptions_are_recipients : forall st px s d,
+  In (s, d) (Fanout.st_sess st) -> Fanout.ss_chan d = true ->
+  (Fanout.px_noecho px && (s =? Fanout.px_sid px)%N) = false ->
+  In s (map fst (Fanout.fanout_all st px)).
+Proof.
+  intros st px s d Hin Hc Hn.
+  destruct (FanoutProofs.exact_set st px) as (_ & _ & E). apply E. exists d. split; [exact Hin|].
+  unfold FanoutProofs.eligible. cbn [fst snd]. rewrite Hc, Hn, orb_true_r. reflexivity.
+Qed.
+
+(* over any list of requests: the numbers of the copies one session receives are strictly increasing and
+   lie in (starting lastID, final lastID] *)
+Theorem c01_recipient_numbers_increasing : forall ops st,
+  FanoutProofs.wf_sess st ->
+  (forall s f, In (s, f) (snd (Fanout.run st ops)) ->
+     (Fanout.st_lastid st < Fanout.f_seq f <= Fanout.st_lastid (fst (Fanout.run st ops)))%Z) /\
+  (forall s, Sorted.StronglySorted Z.lt (map Fanout.f_seq (FanoutProofs.frames_to s (snd (Fanout.run st ops))))).
+Proof. intros ops st W. destruct (FanoutProofs.run_order ops st W) as (_ & _ & A & B). split; assumption. Qed.
+
+Print Assumptions c01_every_recipient_shows_acknowledged.
+Print Assumptions c01_channel_subscriptions_are_recipients.
+Print Assumptions c01_recipient_numbers_increasing.
+
+(* ---- later QUERIES of channel subscriptions, p2p participants and sessions acting on behalf of a user:
+   model Sys/FanoutQueryC01.v (the fan-out model plus the stored message rows and the {get desc} / {get data}
+   of an attached session). *)
+From Tinode Require Sys.FanoutQueryC01 Sys.FanoutQueryC01Proofs.
+
+(* an accepted publish stores the row (acknowledged number, author, content); that number becomes lastID *)
+Theorem c01_query_publish_stores_acknowledged : forall x px q a c p st',
+  Fanout.publish (FanoutQueryC01.q_st x) px = (Fanout.PAccepted q a c p, st') ->
+  FanoutQueryC01.qstep x (FanoutQueryC01.QBase (Fanout.OPub px)) =
+    (Some (FanoutQueryC01.mkQ st' (FanoutQueryC01.q_msgs x ++ [mkMsg q (Fanout.px_author px) (Fanout.px_content px) 0])),
+     Some (Fanout.PAccepted q a c p), []) /\
+  q = (Fanout.st_lastid (FanoutQueryC01.q_st x) + 1)%Z /\ Fanout.st_lastid st' = q.
+Proof. exact FanoutQueryC01Proofs.qstep_pub_accepted. Qed.
+
+(* no other request stores a row or moves lastID *)
+Theorem c01_query_only_publish_stores : forall x o ox res out,
+  FanoutQueryC01.qstep x o = (ox, res, out) ->
+  (forall px q a c p, o = FanoutQueryC01.QBase (Fanout.OPub px) -> res <> Some (Fanout.PAccepted q a c p)) ->
+  FanoutQueryC01.q_msgs (FanoutQueryC01.qnext x ox) = FanoutQueryC01.q_msgs x /\
+  Fanout.st_lastid (FanoutQueryC01.q_st (FanoutQueryC01.qnext x ox)) = Fanout.st_lastid (FanoutQueryC01.q_st x).
+Proof. exact FanoutQueryC01Proofs.qstep_stores_nothing. Qed.
+
+(* every history from a topic without messages: the stored rows are numbered 1 .. lastID, one row per number,
+   and rows once stored are never changed (the log only grows) *)
+Theorem c01_query_rows_numbered : forall ops st, Fanout.st_lastid st = 0 ->
+  FanoutQueryC01Proofs.qinv (fst (FanoutQueryC01.qrun (FanoutQueryC01.qinit st) ops)).
+Proof. intros ops st H. apply FanoutQueryC01Proofs.qrun_inv. apply FanoutQueryC01Proofs.qinv_init. exact H. Qed.
+Theorem c01_query_rows_kept : forall ops x, exists tl,
+  FanoutQueryC01.q_msgs (fst (FanoutQueryC01.qrun x ops)) = FanoutQueryC01.q_msgs x ++ tl.
+Proof. exact FanoutQueryC01Proofs.qrun_prefix. Qed.
+
+(* DESCRIPTION: a subscriber with R - a channel reader included - is shown seq = lastID under every name he may
+   use and for every value of the If-Modified-Since option *)
+Theorem c01_query_desc_shows_lastid : forall st s u name i p,
+  Fanout.chan_ok st (FanoutQueryC01.name_chan_c01q name) = true ->
+  Fanout.lookup u (Fanout.st_users st) = Some p -> Fanout.has (Fanout.eff p) Fanout.bR = true ->
+  FanoutQueryC01.q_get_desc st s u name i = [(s, FanoutQueryC01.QDesc true true (Fanout.st_lastid st))].
+Proof. exact FanoutQueryC01Proofs.q_desc_reader. Qed.
+
+(* HISTORY: every {data} of an answer is a stored row: its number and content are the row's, the author is the
+   row's or withheld (channel name) *)
+Theorem c01_query_history_shows_stored_rows : forall x s u name a b l s' t f q c,
+  In (s', FanoutQueryC01.QData t f q c) (FanoutQueryC01.q_get_data x s u name a b l) ->
+  exists m, In m (FanoutQueryC01.q_msgs x) /\ m_seq m = q /\ m_content m = c /\ (f = 0%N \/ f = m_from m).
+Proof. exact FanoutQueryC01Proofs.q_data_from_store. Qed.
+
+(* ... and an unbounded query shows every stored row (up to the adapter's page of 100 rows) *)
+Theorem c01_query_history_complete : forall ms u,
+  FanoutQueryC01Proofs.rows_live ms -> (length ms <= 100)%nat ->
+  Permutation.Permutation (ad_msg_get_all (FanoutQueryC01.store_of_c01q ms) u 0 0 0) ms.
+Proof. exact FanoutQueryC01Proofs.q_history_complete. Qed.
+
+Print Assumptions c01_query_publish_stores_acknowledged.
+Print Assumptions c01_query_only_publish_stores.
+Print Assumptions c01_query_rows_numbered.
+Print Assumptions c01_query_rows_kept.
+Print Assumptions c01_query_desc_shows_lastid.
+Print Assumptions c01_query_history_shows_stored_rows.
+Print Assumptions c01_query_history_complete.
+
+Example c01_query_ex :
+  snd (FanoutQueryC01.qrun (FanoutQueryC01.qinit FanoutQueryC01Proofs.wq_st) FanoutQueryC01Proofs.wq_ops) =
+  [[]; []; [(3%N, FanoutQueryC01.QDesc true true 2)];
+   [(3%N, FanoutQueryC01.QData Fanout.TChn 0%N 2 102%N); (3%N, FanoutQueryC01.QData Fanout.TChn 0%N 1 101%N); (3%N, FanoutQueryC01.QCtrl 208)]].
+Proof. exact FanoutQueryC01Proofs.wq_ok. Qed.
